@@ -75,3 +75,17 @@ reg("C10", "extra", fn="check_asciifold")
 # C17 replace; C18 escape
 reg("C17", "apirules", fn="check_splice")
 reg("C18", "apirules", fn="check_escape")
+
+# C15 results independent of features
+reg("C15", "twin", fn="check_twin", configs=("default", "pu"))
+reg("C15", "twin", fn="check_xconfig", configs=("default", "pu", "ip", "ip+pu", "alloc"), per_config=False)
+reg("C15", "twin", fn="check_possib")
+reg("C15", "twin", fn="check_hashiter", configs=("default", "alloc"))
+reg("C15", "twin", fn="check_cfginv", configs=("default", "utf16"))
+reg("C15", "sibpos", configs=("ip",))
+reg("C14", "lbseq", configs=("utf16",))
+reg("C15", "lbseq", configs=("utf16",))
+
+# C20 Pattern-trait searcher (nightly, --features pattern)
+reg("C20", "tiling", configs=("pattern",))
+reg("C20", "plumb", configs=("pattern",))
